@@ -47,7 +47,7 @@ def mutant_diff(m):
         sh('git checkout -q -- .', cwd=wt)
         return d
 
-MUX_ALL = ['C01', 'C02', 'C03', 'C04', 'C05', 'C16', 'C18', 'C19', 'C06', 'C07', 'C08']
+MUX_ALL = ['C01', 'C02', 'C03', 'C04', 'C05', 'C16', 'C18', 'C19', 'C06', 'C07', 'C08', 'C09']
 CLI_ALL = ['C09', 'C10', 'C11', 'C12', 'C13', 'C20']
 
 def checks_for(m):
@@ -102,11 +102,18 @@ def phase1(mfile, out, workers):
     ts = [threading.Thread(target=work, args=(k,)) for k in range(workers)]
     [t.start() for t in ts]; [t.join() for t in ts]
 
-def phase2(p1, out, workers, only):
+def phase2(p1, out, workers, only, redo=False):
     done = set()
     if os.path.exists(out):
+        keep = []
         for l in open(out):
-            done.add(json.loads(l)['id'])
+            m = json.loads(l)
+            if redo and m.get('caught_by') is None:
+                continue  # run again with the current checks
+            done.add(m['id'])
+            keep.append(l)
+        if redo:
+            open(out, 'w').writelines(keep)
     q = queue.Queue()
     byfile = {}
     for l in open(p1):
@@ -193,4 +200,6 @@ if __name__ == '__main__':
         args = sys.argv[2:]
         if '--only' in args:
             i = args.index('--only'); only = set(int(x) for x in args[i+1].split(',')); args = args[:i]
-        phase2(args[0], args[1], int(args[2]) if len(args) > 2 else 3, only)
+        redo = '--redo' in args
+        args = [a for a in args if a != '--redo']
+        phase2(args[0], args[1], int(args[2]) if len(args) > 2 else 3, only, redo)
